@@ -205,9 +205,56 @@ func c15Number(c *Ctx, kind, text string, seed int64) {
 	}
 }
 
+// c15Long: long texts behind long prefixes (the encoders size what they reserve from the length of the text and the
+// room that is left: a reservation counted from the start of b instead of from its end only shows with a prefix
+// longer than the text)
+func c15Long(c *Ctx, kind string, n int, seed int64) {
+	var x any
+	switch kind {
+	case "plain":
+		x = strings.Repeat("x", n)
+	case "escaped":
+		x = strings.Repeat("x", n/2) + "\"<é\n" + strings.Repeat("y", n-n/2)
+	case "bytes":
+		x = bytes.Repeat([]byte{0xfb}, n)
+	case "member":
+		x = map[string]any{strings.Repeat("k", n): strings.Repeat("v", n)}
+	case "elements":
+		x = []string{strings.Repeat("a", n), "", strings.Repeat("b", n+1)}
+	case "raw":
+		x = json.RawMessage(`"` + strings.Repeat("r", n) + `"`)
+	case "string-option":
+		x = struct {
+			S string `json:"s,string"`
+		}{strings.Repeat("q", n)}
+	default:
+		return
+	}
+	for _, mask := range []int{0, 7} {
+		fl, _ := subsetFlags(mask)
+		ref, refErr := json.Append(nil, x, fl)
+		for _, p := range []int{0, 1, 64, 255, 256, 257, n, n + n/4, n + n/4 + 2, n + n/2, 2 * n, 2000, 4096, 5000} {
+			for _, sp := range c15Spares {
+				k := c15Case{Seed: seed, Prefix: p, Spare: sp, Flags: mask, Str: strconv.Itoa(n), API: "long:" + kind}
+				c.Case()
+				c15Check(c, k, "json.Append", len(ref), ref, refErr, func(b []byte) ([]byte, error) { return json.Append(b, x, fl) })
+			}
+		}
+	}
+}
+
+func c15Longs(c *Ctx) {
+	for _, kind := range []string{"plain", "escaped", "bytes", "member", "elements", "raw", "string-option"} {
+		for _, n := range []int{7, 8, 63, 64, 255, 256, 257, 300, 1000, 1023, 1024, 4095, 4097} {
+			c15Long(c, kind, n, c.Seed)
+		}
+	}
+}
+
 // c15Numbers: every power of ten with its neighbours, positive and negative, per integer kind; the cut-offs of the
 // float formats
 func c15Numbers(c *Ctx) {
+	c15Longs(c)
 	pow := new(big.Int).SetInt64(1)
 	ten := big.NewInt(10)
 	for k := 0; k <= 20; k++ {
@@ -270,6 +317,11 @@ func c15Vector(c *Ctx, raw stdjson.RawMessage) {
 func c15Replay(c *Ctx, raw stdjson.RawMessage) {
 	var k c15Case
 	if stdjson.Unmarshal(raw, &k) != nil {
+		return
+	}
+	if strings.HasPrefix(k.API, "long:") {
+		n, _ := strconv.Atoi(k.Str)
+		c15Long(c, strings.TrimPrefix(k.API, "long:"), n, k.Seed)
 		return
 	}
 	if strings.HasPrefix(k.API, "number:") {
